@@ -13,7 +13,7 @@ import scipy.stats
 
 import pykoop
 import pykoop.lmi_regressors as lmi
-from .. import core
+from .. import core, structural as st
 
 THEOREMS = ['Pk.C15.C15_history_independent_partial', 'Pk.C15.C15_params_untouched', 'Pk.C15.C15_readonly_pure',
             'Pk.C15.C15_concurrent_reads', 'Pk.C15.C15_params_roundtrip', 'Pk.C15.C15_set_get_id',
@@ -122,7 +122,7 @@ def data_sets(rng, kind):
                 for k in range(n - 1):
                     x[k + 1] = A @ x[k] + B @ u[k] + 0.02 * rs.randn(2)
                 blocks.append((l, np.hstack((x, u))))
-            out.append((pykoop.combine_episodes(blocks, episode_feature=True), {'n_inputs': 1, 'episode_feature': True}))
+            out.append((st.ref_combine(blocks, True), {'n_inputs': 1, 'episode_feature': True}))
     return out
 
 
